@@ -83,8 +83,16 @@ def impl_parse(case, doc, strict, count_calls=True, budget=2000000):
             counter[1] += 1
             if frame.f_code in codes:
                 counter[0] += 1
-            if counter[1] > budget:
+            # an exception raised while a generator frame is being resumed is swallowed by CPython ("Exception ignored
+            # in generator") and the profiler is switched off: raise only on ordinary function calls
+            if counter[1] > budget and not (frame.f_code.co_flags & 0x20):
                 raise Budget()
+    import signal
+
+    def on_alarm(signum, frm):
+        raise Budget()
+    old_handler = signal.signal(signal.SIGALRM, on_alarm)
+    signal.alarm(30)          # wall-clock backstop
     try:
         if count_calls:
             sys.setprofile(prof)
@@ -92,6 +100,8 @@ def impl_parse(case, doc, strict, count_calls=True, budget=2000000):
             v = root.parse(doc, zs)
         finally:
             sys.setprofile(None)
+            signal.alarm(0)
+            signal.signal(signal.SIGALRM, old_handler)
         return dict(outcome="ok", value=canon_value(v), calls=counter[0], events=counter[1], obj=v)
     except Budget:
         return dict(outcome="BUDGET", calls=counter[0], events=counter[1])
